@@ -7,6 +7,7 @@
     ALL event lists: no bound on threads, operations or schedule length.
     This file contains only statements (closed by [exact]), their pins and
     their assumptions. *)
+From RepeV Require Import Model.CondvarSplit.
 From RepeV Require Import Model.Condvar Proofs.CondvarProofs.
 
 (** every method that can turn the awaited condition from false to true calls
@@ -224,6 +225,21 @@ Print Assumptions C12_woken_then_returns_reachable.
 Print Assumptions C12_done_stable.
 Print Assumptions C12_holds.
 Print Assumptions C12_oracle_rejects_lost_wakeup.
+
+(** the atomicity of check-and-park is what the theorems above rest on: if the predicate is
+    evaluated under one hold of the mutex and the park happens under another
+    (Model/CondvarSplit.v), there is a schedule after which the waiter is parked although its
+    condition holds and the notifying operation has already run *)
+Theorem C12_split_check_loses_wakeup :
+  let z := sys2_run (sys2_init 4 8 (WCredit 2)) lost_wakeup_schedule in
+  z_w z = Parked2 /\ ready (z_kind z) (z_tc z) = true /\
+  notifies (z_tc (sys2_run (sys2_init 4 8 (WCredit 2)) [ESignal2 (Sent 10); EWaiter2])) (Ack 0 10) = true.
+Proof. vm_compute. repeat split. Qed.
+Check C12_split_check_loses_wakeup :
+  let z := sys2_run (sys2_init 4 8 (WCredit 2)) lost_wakeup_schedule in
+  z_w z = Parked2 /\ ready (z_kind z) (z_tc z) = true /\
+  notifies (z_tc (sys2_run (sys2_init 4 8 (WCredit 2)) [ESignal2 (Sent 10); EWaiter2])) (Ack 0 10) = true.
+Print Assumptions C12_split_check_loses_wakeup.
 
 (** ** tie to the source text (see Props/C11.v): the [notified] flag of the
     re-translated body of every signalling method is the model's [notifies], and
